@@ -28,6 +28,7 @@ type Obligation struct {
 	ClauseFn  string // name of the elaborated Go function implementing the clause (for replay)
 	Props     []string
 	Detail    string
+	Weak      bool // model search with quantified library facts dropped
 	vc        *VC
 
 	// filled by the solver stage
@@ -71,6 +72,7 @@ type VC struct {
 	curProps []string
 	assumptionsUsed map[string]bool
 	pendingFree     map[ssa.Value]Val
+	inlined         map[string]bool
 	freshRefs       map[string]bool
 	inlineAll       bool
 	usedContracts   map[string]bool
@@ -141,6 +143,15 @@ func (vc *VC) note(s string) {
 }
 
 func (vc *VC) trust(s string) { vc.assumptionsUsed[s] = true }
+
+// assumptionsUsedInl records a module function whose body was verified by
+// inlining into the function under contract.
+func (vc *VC) assumptionsUsedInl(fn string) {
+	if vc.inlined == nil {
+		vc.inlined = map[string]bool{}
+	}
+	vc.inlined[fn] = true
+}
 
 func (vc *VC) addObl(kind, fn, nameBase string, reach, goal string, pos token.Pos) *Obligation {
 	full := sImp(reach, goal)
@@ -466,6 +477,9 @@ func (vc *VC) script(o *Obligation, produceModels bool) string {
 		b.WriteString("(assert (distinct g_emptystr " + strings.Join(ns, " ") + "))\n")
 	}
 	for _, l := range vc.lines[:o.UpTo] {
+		if o.Weak && strings.HasPrefix(l, "(assert (forall") {
+			continue
+		}
 		b.WriteString(l)
 		b.WriteString("\n")
 	}
